@@ -192,7 +192,7 @@ def audit(propmod, log):
         log.append("audit rc=%d\n%s" % (rc, out[-4000:]))
         cur = None
         for chunk in re.split(r"(?m)^(?=')", out):
-            m = re.match(r"'([^']+)' (does not depend on any axioms|depends on axioms: \[([^\]]*)\])", chunk.replace("\n", " "))
+            m = re.match(r"'(.+?)' (does not depend on any axioms|depends on axioms: \[([^\]]*)\])", chunk.replace("\n", " "))
             if m:
                 ax = [] if m.group(3) is None else [a.strip() for a in m.group(3).split(",") if a.strip()]
                 res[m.group(1)] = ax
